@@ -242,6 +242,11 @@ func protocol(out *vio.Out, s *subject, id int, tag string, pool [][]int, hists 
 		fill(e, o, in, false)
 		out.Emit(e)
 		good[i+1][1] = o.ok
+		if o.hung {
+			// the runaway goroutine cannot be stopped: end the recording here
+			out.Close()
+			os.Exit(0)
+		}
 		if !o.ok && !o.unimpl {
 			bad = true
 		}
@@ -251,6 +256,10 @@ func protocol(out *vio.Out, s *subject, id int, tag string, pool [][]int, hists 
 			fill(e, o, in, true)
 			out.Emit(e)
 			good[i+1][2] = o.ok
+			if o.hung {
+				out.Close()
+				os.Exit(0)
+			}
 			if !o.ok && !o.unimpl {
 				bad = true
 			}
@@ -282,6 +291,10 @@ func protocol(out *vio.Out, s *subject, id int, tag string, pool [][]int, hists 
 			e := ev{"ev": "apply", "case": id, "obj": obj, "i": i}
 			fill(e, o, pool[i-1], obj == 2)
 			out.Emit(e)
+			if o.hung {
+				out.Close()
+				os.Exit(0)
+			}
 			if !o.ok {
 				bad = true
 				break
